@@ -51,8 +51,13 @@ func TestVerifRecC14(t *testing.T) {
 	one := func(rb []byte) {
 		var fe field.Element
 		_, _ = fe.SetBytes(rb)
-		pt := EdwardsFlavor(&fe)
-		enc, _ := pt.MarshalBinary()
+		var enc []byte
+		func() {
+			// a panic of the library is an event the specification rejects (empty output), not a dead recorder
+			defer func() { _ = recover() }()
+			pt := EdwardsFlavor(&fe)
+			enc, _ = pt.MarshalBinary()
+		}()
 		seq++
 		ib := func(b []byte) []int {
 			o := make([]int, len(b))
@@ -84,5 +89,8 @@ func TestVerifRecC14(t *testing.T) {
 		r.Read(b)
 		b[31] &= 0x7f
 		one(b)
+		if k%8 == 3 { // an exceptional input in between: whatever it leaves behind must not affect the next evaluations
+			one(le(specials[r.Intn(len(specials))]))
+		}
 	}
 }
